@@ -22,8 +22,9 @@ is proved by induction lemmas over the contracts (no bound on lengths):
     gaps   order-isomorphic                 =>  phi(w) - phi(u) >= w - u  (phi = value map, induction)
     compl  order-isomorphic occurrence      =>  Valid everywhere
 
-ASSUMED: the contract of Perm._pattern_details (left floor / left ceiling table, a deque rotation
-algorithm outside the subset) - decided by the bounded layer (C01.floor_ceiling) and D.runtime.
+The left floor / left ceiling table (Perm.left_floor_and_ceiling, a deque rotation algorithm) and the
+memoised per-pattern table built from it (Perm._pattern_details) are verified in
+contracts/floor_ceiling.py and below; nothing on the path of this property is assumed.
 """
 from pyvc.dsl import contract, lemma
 
@@ -67,15 +68,19 @@ def _details_ok(c, p, det):
     return c.and_(c.len(det) == n, c.forall(0, n, per, pattern=(lambda k: det[k][0]) if c.mode == "sym" else None))
 
 
-@contract("Perm._pattern_details", params={"self": "Perm"}, returns="Seq[int*4]", props=P, assumed=True)
+@contract("Perm._pattern_details", params={"self": "Perm"}, returns="Seq[int*4]", props=P)
 class PatternDetails:
-    # ASSUMED: for every position k the index of the largest smaller / smallest larger entry to the
-    # left (-1 if none) and the two pre-computed offsets used by the search
+    # for every position k the index of the largest smaller / smallest larger entry to the left (-1 if
+    # none) and the two pre-computed offsets used by the search; built from left_floor_and_ceiling
+    # (contracts/floor_ceiling.py) and memoised on the pattern object
     def requires(c, self):
         return c.is_perm(self)
 
     def ensures(c, self, result):
         return _details_ok(c, self, result)
+
+    memo_attrs = ("_cached_pattern_details",)
+    modifies = ("self._cached_pattern_details",)
 
 
 @contract("Perm.get_perm", params={"self": "Perm"}, returns="Perm", props=P)
